@@ -1,0 +1,25 @@
+//go:build verif
+
+// Contracts for package stream_forwarding, checked by /verif (bfvc). Comment-only.
+package stream_forwarding
+
+// C34. Config invariant (established by Config.Validate, which the controller
+// factory runs before construction): conf != nil, conf.ProtocolId != "".
+
+//@ func (*Config).Validate
+//@   noframe
+//@   nilable-receiver
+//@   ensures ret == nil ==> c != nil && c.ProtocolId != ""
+
+//@ func (*Controller).resolveHandleMountedStream
+//@   noframe
+//@   requires c.conf != nil && c.conf.ProtocolId != ""
+//@   ensures ret0 != nil ==> dir.HandleMountedStreamProtocolID() == c.conf.ProtocolId
+//@   ensures ret0 != nil ==> c.localPeerID == "" || dir.HandleMountedStreamLocalPeerID() == c.localPeerID
+
+//@ func (*Controller).HandleDirective
+//@   noframe
+//@   requires c.conf != nil && c.conf.ProtocolId != ""
+//@   ensures ret0 != nil ==> implements(di.GetDirective(), link.HandleMountedStream)
+//@   ensures ret0 != nil ==> as(di.GetDirective(), link.HandleMountedStream).HandleMountedStreamProtocolID() == c.conf.ProtocolId
+//@   ensures ret0 != nil ==> c.localPeerID == "" || as(di.GetDirective(), link.HandleMountedStream).HandleMountedStreamLocalPeerID() == c.localPeerID
